@@ -25,7 +25,7 @@ def groups():
     out.append("Definition gen_binar (is_merge_group : bool) : bool := is_merge_group.")
     init = ast.unparse(find_func(lg, "__init__", "LabelGroup"))
     for need in ["assert np.all([v > 0 for v in self.__value_labels])", "value_labels = sorted(set(value_labels))",
-                 "if self.__single_instance:\n        assert len(value_labels) == 1"]:
+                 "assert not self.__single_instance or len(value_labels) == 1"]:     # normalised spelling of `if single: assert ..`
         if need not in init:
             raise Refuse("LabelGroup.__init__: missing " + need.split("\n")[0])
     anyc = find_func(lg, "__call__", "_LabelGroupAny")
@@ -48,12 +48,15 @@ def groups():
             raise Refuse("evaluate: missing " + need[:60])
     g = find_func(ev, "_evaluate_group", "Panoptica_Evaluator")
     gs = ast.unparse(g)
+    # the group's single-instance flag, read directly in the test or through a name bound once to it
+    flag = "single_instance_mode" if "single_instance_mode = label_group.single_instance" in gs else "label_group.single_instance"
+    if flag == "single_instance_mode" and sum(1 for n in ast.walk(g) if isinstance(n, ast.Name) and n.id == flag and isinstance(n.ctx, ast.Store)) != 1:
+        raise Refuse("_evaluate_group: single_instance_mode is rebound")
     for need in ["prediction_arr_grouped = label_group(processing_pair.prediction_arr)", "reference_arr_grouped = label_group(processing_pair.reference_arr)",
-                 "single_instance_mode = label_group.single_instance", "decision_threshold = self.__decision_threshold",
-                 "decision_threshold=decision_threshold"]:
+                 "decision_threshold = self.__decision_threshold", "decision_threshold=decision_threshold"]:
         if need not in gs:
             raise Refuse("_evaluate_group: missing " + need[:60])
-    ifs = [n for n in g.body if isinstance(n, ast.If) and "single_instance_mode" in ast.unparse(n.test)]
+    ifs = [n for n in g.body if isinstance(n, ast.If) and flag in ast.unparse(n.test)]
     if len(ifs) != 1:
         raise Refuse("single-instance branch")
     body = [ast.unparse(s) for s in ifs[0].body]
@@ -63,10 +66,10 @@ def groups():
 
     def isinst(args, kw=None):
         return ("matched", "bool")
-    tr = Tr({"single_instance_mode": ("single", "bool")}, {"isinstance": isinst})
+    tr = Tr({flag: ("single", "bool")}, {"isinstance": isinst})
     test = ifs[0].test
     src = ast.unparse(test)
-    if src != "single_instance_mode and (not isinstance(processing_pair, MatchedInstancePair))":
+    if src != flag + " and (not isinstance(processing_pair, MatchedInstancePair))":
         raise Refuse("single-instance test " + src)
     out.append("Definition gen_use_single (single matched : bool) : bool := single && negb matched.")
     out.append("(* forced decision threshold in single-instance mode: None = +inf *)")
